@@ -3,6 +3,8 @@
 package snaps
 
 import (
+	"sync"
+
 	"github.com/gkampitakis/go-snaps/internal/vxrt"
 )
 
@@ -123,4 +125,64 @@ func newNames(before, after []string) []string {
 		}
 	}
 	return out
+}
+
+// H_C12_concurrent: two goroutines issue entry points through one shared
+// Config at the same time; the Config is never written (write monitor) and each
+// call stores where it would store alone.
+func H_C12_concurrent() {
+	vxrt.CI(false)
+	vxrt.YAMLAssume(true)
+	dir := vxrt.Dir()
+	var opts []func(*Config)
+	opts = append(opts, Dir(dir))
+	if vxrt.Bool("with-filename") {
+		opts = append(opts, Filename("fn"))
+	}
+	if vxrt.Bool("with-ext") {
+		opts = append(opts, Ext(".txt"))
+	}
+	c1 := WithConfig(opts...)
+	snap1 := *c1
+	_ = isCI
+	vxrt.Freeze(c1, "shared Config c1")
+	apis := [2]int{vxrt.Choice("api-A", 5), vxrt.Choice("api-B", 5)}
+	// where each call stores when issued alone through an identical Config
+	var alone [2][]string
+	for g := 0; g < 2; g++ {
+		fresh := WithConfig(opts...)
+		t := newT([]string{"TestA", "TestB"}[g])
+		before := dirNames(dir)
+		callAPI(fresh, apis[g], t, `"v"`)
+		t.end()
+		alone[g] = newNames(before, dirNames(dir))
+		for _, nme := range dirNames(dir) {
+			removeFile(dir + "/" + nme)
+		}
+	}
+	ts := [2]*mockT{newT("TestA"), newT("TestB")}
+	var wg sync.WaitGroup
+	wg.Add(2)
+	for g := 0; g < 2; g++ {
+		g := g
+		go func() {
+			defer wg.Done()
+			callAPI(c1, apis[g], ts[g], `"v"`)
+		}()
+	}
+	wg.Wait()
+	ts[0].end()
+	ts[1].end()
+	vxrt.Assert(cfgEqual(*c1, snap1), "C12:config-unchanged-by-concurrent-calls")
+	vxrt.Assert(len(ts[0].errors)+len(ts[1].errors) == 0, "C12:concurrent-calls-succeed")
+	after := dirNames(dir)
+	for g := 0; g < 2; g++ {
+		for _, a := range alone[g] {
+			found := false
+			for _, b := range after {
+				found = found || a == b
+			}
+			vxrt.Assert(found, "C12:location-independent-of-concurrent-calls")
+		}
+	}
 }
